@@ -505,7 +505,14 @@ def generate(expanded_path, templates, out_rs, out_meta, flags=()):
     assumed_lines = []
     for no, l in enumerate(g.out, 1):
         if scan_rx.search(l) and not l.strip().startswith('//'):
-            assumed_lines.append([no, l.strip()[:160]])
+            nxt = ''
+            for k in range(no, min(no + 4, len(g.out))):
+                if g.out[k].strip() and not g.out[k].strip().startswith('#['):
+                    nxt = g.out[k].strip()
+                    break
+            if 'external_body' in l and re.match(r'(pub )?fn size_hint', nxt):
+                nxt = 'fn size_hint (R7: performance hint, not under contract)'
+            assumed_lines.append([no, (l.strip() + ' ' + nxt)[:200]])
     g.meta['assumption_scan'] = assumed_lines
     with open(out_meta, 'w') as f:
         json.dump(g.meta, f, indent=1)
